@@ -50,7 +50,14 @@ def run_impl(solver, M):
     same = (M == before) and all(type(a) is type(b) for ra, rb in zip(M, before) for a, b in zip(ra, rb))
     if st != 'ret':
         return st, out, trace, None, None, same
-    return st, out, trace, copy.deepcopy(solver.C), copy.deepcopy(solver.marked), same
+
+    def grid(m):
+        # the final working state as the instance exposes it; anything else (None, other types) counts as "not available"
+        try:
+            return [[x for x in row] for row in m]
+        except TypeError:
+            return []
+    return st, out, trace, grid(getattr(solver, 'C', None)), grid(getattr(solver, 'marked', None)), same
 
 
 def optimum(M):
@@ -153,14 +160,14 @@ def case_term(M, st, out, trace, C, marks):
     isf = is_float_matrix(M)
     lit = flit if isf else zlit
     ctor = 'CaseF' if isf else 'CaseZ'
-    if st != 'ret':
+    if st != 'ret' or not isinstance(out, list) or any(not (isinstance(p, tuple) and len(p) == 2) for p in out):
         obs = 'None'
     else:
         obs = '(Some (%s, %s, %s, %s))' % (
             listlit(['(%s, %s)' % (natlit(i), natlit(j)) for i, j in out]),
             listlit([natlit(k) for k in trace]),
             mat_term(C, lit),
-            listlit([listlit([natlit(v) for v in row]) for row in marks]))
+            listlit([listlit([natlit(v if isinstance(v, int) and 0 <= v < 1000 else 999) for v in row]) for row in marks]))
     return '(%s %s %s)' % (ctor, mat_term(M, lit), obs)
 
 
